@@ -25,4 +25,5 @@ def obligations(tier):
         cfgs += [Cfg(1, 3, MQ, DP, e2e=1, scale=0.25), Cfg(2, 3, HQ, 0, e2e=1, scale=2.0), Cfg(1, 64, LQ, DP, e2e=1, i0=300, scale=0.5), Cfg(8, 1, HQ, DP, e2e=1, scale=2.0)]
     obls += [e2e_obl(c, ('gain',), tier) for c in cfgs]
     obls += [e2e_obl(c, ('gain', 'sym'), tier) for c in align_cfgs(tier)[:3]]
+    obls.append(init_qq_obl())      # real _soxr_init for the quick recipe: cubic stage inside its envelope
     return obls
